@@ -370,6 +370,11 @@ func runParser(c *Ctx, p *Parser, input []byte, extra [][]byte) Parsed {
 	if o.Status == "panic" {
 		res = Parsed{Obs: o}
 	}
+	// the serialisation handed out belongs to the caller from now on: later calls into the
+	// library (on this or any other value) must leave it as it is
+	if res.OK {
+		c.Hold(p.Name+" -> Bytes()", args, res.Bytes)
+	}
 	return res
 }
 
